@@ -581,6 +581,12 @@ class Gen:
             self.call(victim, 'update_settings', settings={C.S_MAX_HEADER_LIST_SIZE: rng.choice([4096, 65536]),
                                                           C.S_MAX_CONCURRENT_STREAMS: rng.choice([10, 100])})
             self.settle()
+        if victim == 'c' and not self.halted:
+            # a client with one long-lived request that then only listens: whatever piles up in it, the peer did
+            self.call('c', 'send_headers', sid=1, headers=[(':method', 'GET'), (':scheme', 'https'), (':authority', 'a'),
+                                                            (':path', '/long')], es=rng.random() < 0.5)
+            if w.eps['c'].outbox:
+                del w.eps['c'].outbox[:]
         n = self.n_events
         i = 0
         w.pipes[d].tainted = True
